@@ -1,5 +1,10 @@
 // Harness for C11 (after any link failure an open connection recovers).
 //
+// Pass "e2e" (e2e.go): a real hsmsss connection over harness-owned pipes whose link is cut at every
+// byte offset of the select / data / linktest exchanges in both directions, stalled under each
+// protocol timer, rejected, or refused for runs of k dials; the harness observes the dial
+// timestamps, the post-recovery round trip, Reconnects() and the hygiene after Close.
+//
 // Pass "pure" (default): the real nextBackoffDelay (through the verif hook) on boundary and random
 // inputs, and the arithmetic of connectLoop's sleep sequence iterated on the real function. Every
 // case line carries the multiplier as the bit pattern of the float64; results are compared exactly
@@ -182,6 +187,8 @@ func main() {
 	switch *pass {
 	case "pure":
 		purePass(c)
+	case "e2e":
+		e2ePass(c)
 	default:
 		c.Note("unknown pass " + *pass)
 	}
